@@ -470,11 +470,17 @@ func (e *SpecEnv) evalBinary(n *Node) TV {
 	case "*":
 		return TV{V: BVBin("bvmul", at, bt), T: a.T}
 	case "/":
+		if q, _, ok := divByConst(e.st, at, bt, signed); ok && !at.bound {
+			return TV{V: q, T: a.T}
+		}
 		if signed {
 			return TV{V: BVBin("bvsdiv", at, bt), T: a.T}
 		}
 		return TV{V: BVBin("bvudiv", at, bt), T: a.T}
 	case "%":
+		if _, r, ok := divByConst(e.st, at, bt, signed); ok && !at.bound {
+			return TV{V: r, T: a.T}
+		}
 		if signed {
 			return TV{V: BVBin("bvsrem", at, bt), T: a.T}
 		}
